@@ -19,6 +19,17 @@ pub struct Hist {
     pub server_isn: u32,
     /// data segments in arrival order: (from client, offset in that direction's byte stream, length)
     pub segs: Vec<(bool, usize, usize)>,
+    /// how the handshake reaches the analyzer: 0 = SYN, SYN+ACK; 1 = SYN+ACK captured before the SYN; 2 = SYN, SYN+ACK and a
+    /// retransmitted SYN+ACK; 3 = an earlier connection attempt between the same endpoints with the roles reversed (its
+    /// lone SYN), then SYN, SYN+ACK; 4 = a stray SYN+ACK of the server long before, then SYN, SYN+ACK
+    #[serde(default)]
+    pub handshake: u8,
+    /// connection teardown mixed into the exchange: 0 = none; 1 = the server's segment that carries its last byte also
+    /// carries FIN; 2 = the client half-closes with an empty FIN right after the segment that carries its last byte;
+    /// 3 = the client's last segment itself carries FIN (client segments in order; the response is then left open: the
+    /// analyzer forgets a connection whose client has closed)
+    #[serde(default)]
+    pub fin: u8,
 }
 
 pub fn streams() -> Vec<(&'static str, Vec<u8>, Vec<u8>)> {
@@ -106,7 +117,9 @@ fn frame_for(h: &Hist, req: &[u8], resp: &[u8], s: &(bool, usize, usize)) -> Vec
     let (bytes, isn) = if client { (req, h.client_isn) } else { (resp, h.server_isn) };
     let seq = isn.wrapping_add(1).wrapping_add(off as u32);
     let (src, sport, dst, dport) = if client { (1u8, 40000u16, 2u8, 80u16) } else { (2, 80, 1, 40000) };
-    pkt::build(&Spec { src, sport, dst, dport, flags: ACK | PSH, seq, ack: 1, payload: bytes[off..off + len].to_vec(), ..Spec::default() })
+    let last = off + len == bytes.len();
+    let fin = if last && ((h.fin == 1 && !client) || (h.fin == 3 && client)) { 1u8 } else { 0 };
+    pkt::build(&Spec { src, sport, dst, dport, flags: ACK | PSH | fin, seq, ack: 1, payload: bytes[off..off + len].to_vec(), ..Spec::default() })
 }
 fn summary(x: &HttpRes) -> (Option<String>, Option<String>) {
     (x.request.as_ref().map(|q| format!("{}>{} {} {:?} {:?} {:?}", q.src, q.dst, q.sig, q.method, q.uri, q.headers)), x.response.as_ref().map(|q| format!("{}>{} {} {:?} {:?}", q.src, q.dst, q.sig, q.status, q.headers)))
@@ -120,11 +133,34 @@ pub fn check(r: &mut Report, ss: &[(&'static str, Vec<u8>, Vec<u8>)], refs: &[(O
     r.exec(2 + frames.len() as u64);
     let got = guarded(|| {
         let mut a = HttpSeq::new(None, 8);
-        let first = a.feed(&syn);
-        let second = a.feed(&synack);
+        let (first, second) = match h.handshake {
+            1 => {
+                let x = a.feed(&synack);
+                (a.feed(&syn), x)
+            }
+            2 => {
+                let x = a.feed(&syn);
+                let y = a.feed(&synack);
+                let _ = a.feed(&synack);
+                (x, y)
+            }
+            3 => {
+                let _ = a.feed(&pkt::build(&Spec { src: 2, sport: 80, dst: 1, dport: 40000, flags: SYN, seq: 77, ..Spec::default() }));
+                (a.feed(&syn), a.feed(&synack))
+            }
+            4 => {
+                let _ = a.feed(&pkt::build(&Spec { src: 2, sport: 80, dst: 1, dport: 40000, flags: SYN | ACK, seq: 4242, ack: 99, ..Spec::default() }));
+                (a.feed(&syn), a.feed(&synack))
+            }
+            _ => (a.feed(&syn), a.feed(&synack)),
+        };
         let mut out = vec![summary(&first), summary(&second)];
-        for f in &frames {
+        for (i, f) in frames.iter().enumerate() {
             out.push(summary(&a.feed(f)));
+            let sg = h.segs[i];
+            if h.fin == 2 && sg.0 && sg.1 + sg.2 == req.len() {
+                let _ = a.feed(&pkt::build(&Spec { src: 1, sport: 40000, dst: 2, dport: 80, flags: ACK | 1, seq: h.client_isn.wrapping_add(1).wrapping_add(req.len() as u32), ack: 1, ..Spec::default() }));
+            }
         }
         out
     });
@@ -205,7 +241,7 @@ pub fn check(r: &mut Report, ss: &[(&'static str, Vec<u8>, Vec<u8>)], refs: &[(O
     if prefix(&have_c) >= req.len() && seen_req == 0 {
         dev(r, "request-never-reported", String::new());
     }
-    if prefix(&have_s) >= resp.len() && seen_resp == 0 {
+    if prefix(&have_s) >= resp.len() && seen_resp == 0 && h.fin != 3 {
         dev(r, "response-never-reported", String::new());
     }
 }
@@ -258,7 +294,7 @@ pub fn histories(ss: &[(&'static str, Vec<u8>, Vec<u8>)], thorough: bool) -> Vec
                             } else {
                                 segs.insert(0, whole);
                             }
-                            v.push(Hist { stream: si, client_isn: if client { isn } else { 7000 }, server_isn: if client { 9000 } else { isn }, segs });
+                            v.push(Hist { stream: si, client_isn: if client { isn } else { 7000 }, server_isn: if client { 9000 } else { isn }, segs, handshake: 0, fin: 0 });
                         }
                     }
                 }
@@ -274,7 +310,7 @@ pub fn histories(ss: &[(&'static str, Vec<u8>, Vec<u8>)], thorough: bool) -> Vec
                     let all = [a[0], a[1], b[0], b[1]];
                     let segs: Vec<(bool, usize, usize)> = order.iter().map(|&i| all[i]).collect();
                     for (ci, sidx) in [(u32::MAX - 20, u32::MAX - 30), (0x1000, 0x2000)] {
-                        v.push(Hist { stream: si, client_isn: ci, server_isn: sidx, segs: segs.clone() });
+                        v.push(Hist { stream: si, client_isn: ci, server_isn: sidx, segs: segs.clone(), handshake: 0, fin: 0 });
                     }
                 }
             }
@@ -289,8 +325,35 @@ pub fn histories(ss: &[(&'static str, Vec<u8>, Vec<u8>)], thorough: bool) -> Vec
                         for isn in [u32::MAX - (c2 as u32), 5] {
                             let mut segs: Vec<(bool, usize, usize)> = perm.iter().map(|&i| (true, part[i].0, part[i].1)).collect();
                             segs.push((false, 0, resp.len()));
-                            v.push(Hist { stream: si, client_isn: isn, server_isn: 1, segs });
+                            v.push(Hist { stream: si, client_isn: isn, server_isn: 1, segs, handshake: 0, fin: 0 });
                         }
+                    }
+                }
+            }
+        }
+        // teardown flags inside the exchange
+        for fin in 1..=3u8 {
+            for (ci, sidx) in [(0x1000u32, 0x2000u32), (u32::MAX - 20, u32::MAX - 30)] {
+                v.push(Hist { stream: si, client_isn: ci, server_isn: sidx, segs: vec![(true, 0, req.len()), (false, 0, resp.len())], handshake: 0, fin });
+                for c1 in (1..req.len()).step_by(13) {
+                    for c2 in (1..resp.len()).step_by(13) {
+                        let (a, b, c, d) = ((true, 0, c1), (true, c1, req.len() - c1), (false, 0, c2), (false, c2, resp.len() - c2));
+                        v.push(Hist { stream: si, client_isn: ci, server_isn: sidx, segs: vec![a, b, c, d], handshake: 0, fin });
+                        // the server's pieces swapped (the FIN-carrying one first); the client's stay in order
+                        v.push(Hist { stream: si, client_isn: ci, server_isn: sidx, segs: vec![a, b, d, c], handshake: 0, fin });
+                    }
+                }
+            }
+        }
+        // the handshake itself out of order, repeated, or preceded by stale packets between the same endpoints: both
+        // directions whole and in two pieces (cuts on a stride), in order and with the response first
+        for hs in 1..=4u8 {
+            for (ci, sidx) in [(0x1000u32, 0x2000u32), (u32::MAX - 20, u32::MAX - 30)] {
+                v.push(Hist { stream: si, client_isn: ci, server_isn: sidx, segs: vec![(true, 0, req.len()), (false, 0, resp.len())], handshake: hs, fin: 0 });
+                v.push(Hist { stream: si, client_isn: ci, server_isn: sidx, segs: vec![(false, 0, resp.len()), (true, 0, req.len())], handshake: hs, fin: 0 });
+                for c1 in (1..req.len()).step_by(13) {
+                    for c2 in (1..resp.len()).step_by(13) {
+                        v.push(Hist { stream: si, client_isn: ci, server_isn: sidx, segs: vec![(true, 0, c1), (true, c1, req.len() - c1), (false, 0, c2), (false, c2, resp.len() - c2)], handshake: hs, fin: 0 });
                     }
                 }
             }
@@ -318,7 +381,7 @@ pub fn run(thorough: bool) -> Outcome {
             if hs_ < resp.len() {
                 segs.push((false, hs_, resp.len() - hs_));
             }
-            let h = Hist { stream: si, client_isn: 1000, server_isn: 5000, segs };
+            let h = Hist { stream: si, client_isn: 1000, server_isn: 5000, segs, handshake: 0, fin: 0 };
             let syn = pkt::build(&Spec { src: 1, sport: 40000, dst: 2, dport: 80, flags: SYN, seq: 1000, ..Spec::default() });
             let mut a = HttpSeq::new(None, 8);
             a.feed(&syn);
@@ -347,7 +410,7 @@ pub fn run(thorough: bool) -> Outcome {
     });
     Outcome {
         report: pre.merge(rep),
-        rule: "HTTP/1 (CRLF heads; bare-LF heads whose bodies contain CRLF blank lines; CRLF heads whose bodies contain LF blank lines; bodies that are not UTF-8) and HTTP/2 (single HEADERS frame; HEADERS + CONTINUATION frames) exchanges after SYN/SYN+ACK, reference = each direction cut exactly behind its head: every 1-, 2- and 3-partition (3-partitions on a stride in quick) of each direction x 9 initial sequence numbers (0, 1, 2^31, 2^31-10, 2^32-1, 2^32-2, 2^32-len, 2^32-len/2, 0x12345678) x every arrival permutation; both directions in two pieces each in all 24 interleavings (with and without wrap); four request pieces in all 24 orders; distinct = distinct per-packet report patterns".into(),
+        rule: "HTTP/1 (CRLF heads; bare-LF heads whose bodies contain CRLF blank lines; CRLF heads whose bodies contain LF blank lines; bodies that are not UTF-8) and HTTP/2 (single HEADERS frame; HEADERS + CONTINUATION frames) exchanges after SYN/SYN+ACK, reference = each direction cut exactly behind its head: every 1-, 2- and 3-partition (3-partitions on a stride in quick) of each direction x 9 initial sequence numbers (0, 1, 2^31, 2^31-10, 2^32-1, 2^32-2, 2^32-len, 2^32-len/2, 0x12345678) x every arrival permutation; both directions in two pieces each in all 24 interleavings (with and without wrap); four request pieces in all 24 orders; the handshake in 4 further shapes (SYN+ACK before SYN, retransmitted SYN+ACK, a stale SYN or SYN+ACK of the reversed orientation first) x whole and two-piece directions; teardown inside the exchange (FIN on the server's last segment, an empty client FIN between request and response, FIN on the client's last segment) x whole and two-piece directions; distinct = distinct per-packet report patterns".into(),
         exhaustive: true,
         bounds: json!({"histories": hs.len(), "streams": ss.iter().map(|s| (s.0, s.1.len(), s.2.len())).collect::<Vec<_>>()}),
     }
@@ -367,7 +430,7 @@ fn run_refs(ss: &[(&'static str, Vec<u8>, Vec<u8>)]) -> Vec<(Option<String>, Opt
     ss.iter()
         .enumerate()
         .map(|(si, (_n, req, resp))| {
-            let h = Hist { stream: si, client_isn: 1000, server_isn: 5000, segs: vec![(true, 0, req.len()), (false, 0, resp.len())] };
+            let h = Hist { stream: si, client_isn: 1000, server_isn: 5000, segs: vec![(true, 0, req.len()), (false, 0, resp.len())], handshake: 0, fin: 0 };
             let syn = pkt::build(&Spec { src: 1, sport: 40000, dst: 2, dport: 80, flags: SYN, seq: 1000, ..Spec::default() });
             let mut a = HttpSeq::new(None, 8);
             a.feed(&syn);
